@@ -118,6 +118,10 @@ static size_t heap_baseline;
 static bool baseline_taken = false;
 static bool terminated = false;
 
+extern void *__real_malloc(size_t);
+extern void *__real_calloc(size_t, size_t);
+extern void *__real_realloc(void *, size_t);
+
 static const char *ep_names[3] = {"jet", "http", "uds"};
 
 static void out(const char *fmt, ...)
@@ -146,7 +150,7 @@ static void hex(char *dst, const uint8_t *p, size_t n)
 
 static char *hexdup(const void *p, size_t n)
 {
-	char *s = __builtin_malloc(2 * n + 2);
+	char *s = __real_malloc(2 * n + 2);
 	hex(s, p, n);
 	return s;
 }
@@ -202,9 +206,6 @@ static struct simfd *use(int fd, const char *what)
 
 /* ------------------------------------------------------------------ wrapped libc */
 
-extern void *__real_malloc(size_t);
-extern void *__real_calloc(size_t, size_t);
-extern void *__real_realloc(void *, size_t);
 extern ssize_t __real_read(int, void *, size_t);
 extern int __real_close(int);
 extern ssize_t __real_writev(int, const struct iovec *, int);
@@ -467,7 +468,7 @@ ssize_t __wrap_writev(int fd, const struct iovec *iov, int cnt)
 	}
 	if (m == W_EAGAIN) { out("W %s asked=%zu ret=EAGAIN", hname(fd), total); errno = EAGAIN; return -1; }
 	if (m == W_ERR) { out("W %s asked=%zu ret=ERR", hname(fd), total); errno = EPIPE; return -1; }
-	uint8_t *flat = __builtin_malloc(total + 1);
+	uint8_t *flat = __real_malloc(total + 1);
 	size_t o = 0;
 	for (int i = 0; i < cnt; i++) { memcpy(flat + o, iov[i].iov_base, iov[i].iov_len); o += iov[i].iov_len; }
 	char *h = hexdup(flat, take);
@@ -655,9 +656,9 @@ static int fd_of_handle(const char *h)
 
 static size_t unhex(const char *h, uint8_t **outp)
 {
-	if (strcmp(h, "-") == 0) { *outp = __builtin_malloc(1); return 0; }
+	if (strcmp(h, "-") == 0) { *outp = __real_malloc(1); return 0; }
 	size_t n = strlen(h) / 2;
-	uint8_t *b = __builtin_malloc(n + 1);
+	uint8_t *b = __real_malloc(n + 1);
 	for (size_t i = 0; i < n; i++) {
 		unsigned v;
 		sscanf(h + 2 * i, "%2x", &v);
@@ -671,7 +672,7 @@ static size_t parse_list(const char *s, size_t **outp)
 {
 	size_t n = 1;
 	for (const char *p = s; *p; p++) if (*p == ',') n++;
-	size_t *v = __builtin_malloc(sizeof(size_t) * n);
+	size_t *v = __real_malloc(sizeof(size_t) * n);
 	size_t i = 0;
 	char *dup = strdup(s), *save = NULL;
 	for (char *tok = strtok_r(dup, ",", &save); tok; tok = strtok_r(NULL, ",", &save)) v[i++] = strtoull(tok, NULL, 10);
@@ -751,7 +752,7 @@ static bool exec_line(char *line)
 		size_t n = unhex(a2, &b);
 		/* append to unread input */
 		size_t rest = s->in_len - s->in_pos;
-		uint8_t *nb = __builtin_malloc(rest + n + 1);
+		uint8_t *nb = __real_malloc(rest + n + 1);
 		if (rest) memcpy(nb, s->in + s->in_pos, rest);
 		memcpy(nb + rest, b, n);
 		free(b);
@@ -764,7 +765,7 @@ static bool exec_line(char *line)
 			size_t *extra;
 			size_t ne = parse_list(a3, &extra);
 			size_t keep = s->n_chunks - s->chunk_pos;
-			size_t *nc = __builtin_malloc(sizeof(size_t) * (keep + ne + 1));
+			size_t *nc = __real_malloc(sizeof(size_t) * (keep + ne + 1));
 			if (keep) memcpy(nc, s->chunks + s->chunk_pos, sizeof(size_t) * keep);
 			memcpy(nc + keep, extra, sizeof(size_t) * ne);
 			free(extra);
@@ -933,11 +934,11 @@ int main(int argc, char **argv)
 	}
 	/* read the script */
 	size_t cap = 1024;
-	script = __builtin_malloc(sizeof(char *) * cap);
+	script = __real_malloc(sizeof(char *) * cap);
 	char *lineb = NULL;
 	size_t ln = 0;
 	while (getline(&lineb, &ln, stdin) > 0) {
-		if ((size_t)script_len == cap) { cap *= 2; script = __builtin_realloc(script, sizeof(char *) * cap); }
+		if ((size_t)script_len == cap) { cap *= 2; script = __real_realloc(script, sizeof(char *) * cap); }
 		size_t l = strlen(lineb);
 		while (l && (lineb[l - 1] == '\n' || lineb[l - 1] == '\r')) lineb[--l] = 0;
 		script[script_len++] = strdup(lineb);
